@@ -24,7 +24,7 @@ ADVERSARIAL = [
     "tab\there", "end.", "UNKNOWN", "A:1", ".A", "..A", "A..", "A . . B",
     "SERIAL. 18446744073709551616 : twenty digits", "X. 99999999999999999999", "X.M -170141183460469231731687303715884105728 : big",
     "Y. 1e999 : overflow", "Z. 9" + "9" * 400, "Q. 0x1F : hex", "R. 1_000 : underscore", "T. 1e : half exponent",
-    "U. --5 : x", "V. 5,,5 : x", "W 1.5.5 : x", "remark : see rev. 2", ":.", "'q' : \"a.b\"", "a : b . c : d",
+    "JUNK.[] 1 : x", "J.() : y", "x.[()] 12", "K.(( )) 3 : z", "L.[ : open", "U. --5 : x", "V. 5,,5 : x", "W 1.5.5 : x", "remark : see rev. 2", ":.", "'q' : \"a.b\"", "a : b . c : d",
 ]
 MN = ["X", "SERIAL", "A B", "q", "LONGNAME_123", "1", "-"]
 VALS = ["18446744073709551616", "99999999999999999999999", "-9223372036854775809", "1e999", "-1e-999", "0x10", "1_0", "1e", "e5", "+-1",
@@ -172,7 +172,7 @@ class C19(Prop):
                     txt = g.choice(ADVERSARIAL)
                 elif q < 0.6:
                     # structured junk: a well-formed looking line around an extreme or malformed value
-                    txt = "%s%s.%s%s%s%s%s" % (g.choice(MN), g.choice(["", " "]), g.choice(["", "M", "1000 lbf", "."]), g.choice([" ", "   "]),
+                    txt = "%s%s.%s%s%s%s%s" % (g.choice(MN), g.choice(["", " "]), g.choice(["", "M", "1000 lbf", ".", "[]", "()", "[()]", "((M))", "[M", ")"]), g.choice([" ", "   "]),
                                                g.choice(VALS), g.choice(["", " :", " : descr", ":"]), g.choice(["", " x"]))
                 else:
                     txt = "".join(g.choice(PRINTABLE) for _ in range(g.randint(1, 40)))
